@@ -180,6 +180,7 @@ void scen_c04(mt_case * c) {
   if (n_occupiers) mt_desc(" %d occupier thread(s), created after %d/%d/%d script threads: each keeps a worker busy, without yielding, until all script threads have finished\n", n_occupiers, occ_pos[0], occ_pos[1], occ_pos[2]);
   mt_hash(c->prog.p, c->prog.pos);
   myth_verif_clock_fn = vclock;
+  mt_allow_prelude = 1;
   mt_lib_start(c, &e, 0);
   mv_set_point_observer(observer); mv_set_spin_observer(spin_obs);
   for (int m = 0; m < P.M; m++) { MT_DIRTY(mtx[m]); Z0(myth_mutex_init(&mtx[m], 0)); }
